@@ -142,7 +142,7 @@ class Gen:
         n = len(self.vars)
         v = 'v%d' % n
         kinds = self.kinds or ['mk', 'mk', 'const', 'idx', 'pair', 'add', 'add', 'use', 'use', 'use', 'mkdict', 'inc', 'jmap', 'jmap1', 'mapreduce',
-                               'jreduce', 'currymap', 'identity', 'iteratetask', 'pair2']
+                               'jreduce', 'currymap', 'identity', 'iteratetask', 'pair2', 'arr', 'asq']
         if n < 2:
             kinds = ['mk', 'const', 'mkdict']
         kind = r.choice(kinds)
@@ -157,6 +157,12 @@ class Gen:
             self.emit([v], 'pair(%d, %s, %s)' % (k, self.arg(), self.arg()), 'task')
         elif kind == 'add':
             self.emit([v], 'add(%d, %s, %s)' % (k, self.arg(), self.arg()), 'task')
+        elif kind == 'arr':
+            self.note('numpy-result')
+            self.emit([v], 'arr(%d, %d)' % (k, r.randint(1, 4)), 'task')
+        elif kind == 'asq':
+            arrs = [x for x in self.vars if x[2] == 'task' and type(x[1]).__module__ == 'numpy']
+            self.emit([v], 'asq(%d, %s)' % (k, r.choice(arrs)[0] if arrs and r.random() < 0.8 else self.arg()), 'task')
         elif kind == 'inc':
             self.emit([v], 'inc(%d, %s)' % (k, self.arg()), 'task')
         elif kind == 'mkdict':
